@@ -512,6 +512,19 @@ func init() {
 			specs = append(specs,
 				&EngSpec{Name: "short-lived-slow-key-twice", Cfg: hapi.Config{FastKeys: 1, Concurrent: 2}, Fine: true, Setup: []Step{C(L(9, 2, 9, 0, 10, 0, 0))},
 					Threads: [][]Step{{C(L(1, 1, 1, 0, 0, 0, 0))}, {C(L(2, 1, 2, 0, 0, 0, 0))}}, Unlock: []hapi.Cmd{U(99, 2, 9)}})
+			// a client ends a record in the very tick in which the sweeper has collected it as due: the hold's unlock on its
+			// expiry tick, the waiter's grant / cancellation on its timeout tick (the key's last record goes in the sweeper)
+			ulT := unlockAll([]byte{1}, []byte{1, 2, 3})
+			specs = append(specs,
+				&EngSpec{Name: "unlock-vs-expiry-tick", Cfg: cfg1, Fine: true, Setup: []Step{C(L(9, 1, 1, 0, 1, 0, 0))},
+					Threads: [][]Step{{At(3000 * ms), C(U(1, 1, 1))}}, Unlock: ulT},
+				&EngSpec{Name: "unlock-vs-expiry-tick-two-holds", Cfg: cfg1, Fine: true, Setup: []Step{C(L(9, 1, 1, 0, 1, 2, 0)), C(L(8, 1, 2, 0, 1, 2, 0))},
+					Threads: [][]Step{{At(3000 * ms), C(U(1, 1, 2))}}, Unlock: ulT},
+				// the key's ONLY record is a request waiting on a free key (wait-when-unlocked); it is cancelled on its timeout tick
+				&EngSpec{Name: "cancel-sole-waiter-vs-timeout-tick", Cfg: cfg1, Fine: true, Setup: []Step{C(withTF(L(8, 1, 2, 1, 10, 0, 0), 0x0200))},
+					Threads: [][]Step{{At(3000 * ms), C(hapi.Cmd{Type: 2, Req: 1, Key: 1, Id: 2, Flag: 0x02})}}, Unlock: ulT},
+				&EngSpec{Name: "grant-and-release-vs-timeout-tick", Cfg: cfg1, Fine: true, Setup: []Step{C(L(9, 1, 1, 0, 10, 0, 0)), C(L(8, 1, 2, 1, 10, 0, 0))},
+					Threads: [][]Step{{At(3000 * ms), C(U(1, 1, 1)), C(U(2, 1, 2))}}, Unlock: ulT})
 			for _, s := range specs {
 				s.FinalFor = 14 * sec
 				s.Collect = !q
